@@ -395,6 +395,20 @@ pub fn build<G: K>(defs: &Defs, env: &Env, e: &Sexp) -> G {
                     let b = build_op_body::<G>(defs, env, args);
                     with_slices(&b, |s| Conde::<U, E, G>::from_conjunctions(s).cast_into())
                 }
+                "disj" => {
+                    // the public binary-disjunction API (not what the macros expand conde to): (disj new|vec|array|conjs clause...)
+                    use proto_vulcan::operator::disj::Disj;
+                    let b = build_op_body::<Goal<U, E>>(defs, &env, &args[1..]);
+                    let gs: Vec<Goal<U, E>> = b.iter().map(|c| conj_arr::<Goal<U, E>>(c)).collect();
+                    let g = match args[0].atom() {
+                        "new" => Disj::new(gs[0].clone(), gs[1].clone()),
+                        "vec" => Disj::from_vec(gs),
+                        "array" => Disj::from_array(gs.as_slice()),
+                        "conjs" => with_slices(&b, |s| Disj::from_conjunctions(s)),
+                        _ => panic!("harness: bad disj variant"),
+                    };
+                    G::from_bfs(g)
+                }
                 "conda" => {
                     let b = build_op_body::<Goal<U, E>>(defs, env, args);
                     G::from_bfs(with_slices(&b, |s| proto_vulcan::operator::conda(OperatorParam::new(s))))
